@@ -260,7 +260,14 @@ func visitInstr(fr *frame, instr ssa.Instruction) continuation {
 		panic(targetPanic{fr.get(instr.X)})
 
 	case *ssa.Send:
-		fr.get(instr.Chan).(chan value) <- fr.get(instr.X)
+		ch := fr.get(instr.Chan).(chan value)
+		if inSession() {
+			if cap(ch) == 0 {
+				panic(pathUnsupported{"send on an unbuffered channel inside a scheduling session"})
+			}
+			syncPointOp(&schedOp{kind: "send", ch: ch})
+		}
+		ch <- fr.get(instr.X)
 
 	case *ssa.Store:
 		addr := fr.get(instr.Addr).(*value)
@@ -296,7 +303,11 @@ func visitInstr(fr *frame, instr ssa.Instruction) continuation {
 
 	case *ssa.Go:
 		_ = atomic.AddInt32
-		panic(pathUnsupported{"go statement"})
+		if !inSession() {
+			panic(pathUnsupported{"go statement outside verifrt.Threads / Interleave"})
+		}
+		fn, args := prepareCall(fr, &instr.Call)
+		E.sched.spawn(fn, args)
 
 	case *ssa.MakeChan:
 		fr.env[instr] = make(chan value, asInt64(fr.get(instr.Size)))
